@@ -1099,10 +1099,286 @@ fn main() {
 }
 
 // ------------------------------------------------------------------------------------------
-// stream: session (end to end) — filled in below
+// stream: session (end to end): text → parse_command → dispatch_command on a real ShardManager
+// in a child process; DEFINE, a few STOREs (valid / mutated), a failing re-DEFINE, then QUERY.
 
-fn run_session(_a: &Args) {
-    let _ = (Session::start, SysCfg::default);
-    eprintln!("session stream not built yet");
-    std::process::exit(2);
+struct SessStore {
+    text: String,
+    k: i64,
+    expected: bool,           // ground truth by construction (text level)
+    labels: Vec<&'static str>,
+    blank_ctx: bool,          // context is white-space-only, everything else valid
+    brace: bool,              // a string of the payload holds '{' or '}', everything else valid
+    plus_exp: bool,           // a float literal is spelled with "e+", everything else valid
+    huge_time: bool,          // an integer literal above u64::MAX sits in a time field, everything else valid
+    to_defined: bool,         // addressed to the session's defined type
+}
+
+fn has_brace(v: &Value) -> bool {
+    match v {
+        Value::String(s) => s.contains('{') || s.contains('}'),
+        Value::Object(o) => o.iter().any(|(k, v)| k.contains('{') || k.contains('}') || has_brace(v)),
+        Value::Array(a) => a.iter().any(has_brace),
+        _ => false,
+    }
+}
+
+fn ctx_text(c: &str) -> String {
+    let bare = !c.is_empty()
+        && c.chars().next().is_some_and(|ch| ch.is_ascii_alphabetic() || ch == '_')
+        && c.chars().all(|ch| ch.is_ascii_alphanumeric() || ch == '_' || ch == '-');
+    if bare { c.to_string() } else { format!("\"{c}\"") }
+}
+
+fn sess_class_of_error(msg: &str) -> String {
+    let (line, _) = canon_store_reply(400, msg, true);
+    let kind = line.strip_prefix("err ").unwrap_or(&line);
+    let k = kind.split(' ').next().unwrap_or("");
+    match k {
+        "mismatch" | "missing" => "err field".into(),
+        "extra" => "err extra".into(),
+        "time-magnitude" | "time-string" | "time-kind" => "err time".into(),
+        _ => format!("err {kind}"),
+    }
+}
+
+fn run_session(a: &Args) {
+    let root = a.out.join("session-sys");
+    let _ = std::fs::remove_dir_all(&root);
+    let cfg = SysCfg { shards: 2, event_per_zone: 16, fill_factor: 4, ..SysCfg::default() };
+    let mut sess = Session::start(&root, &cfg);
+    let mut s = Stream::create(&a.out, "session");
+    const SESS_CTX: &[&str] = &["c1", "ctx-42", "ÜñÏ", "a b", " lead", "u_1", "0", "user:1"];
+    const SESS_BLANK: &[&str] = &[" ", "   ", "\t", "\u{00a0}", " \u{3000}"];
+    for i in 0..a.cases {
+        if a.only.is_some_and(|o| o != i) {
+            continue;
+        }
+        let mut r = Rng::for_case(a.seed, "session", i);
+        let et = format!("t{}_{}", a.seed % 1000, i);
+        let names: Vec<&str> = IDENT_NAMES.iter().copied().filter(|n| *n != "k").collect();
+        let schema = gen_schema(&mut r, &names, false);
+        // ---- DEFINE text
+        let mut parts = vec!["k: \"int\"".to_string()];
+        for f in &schema {
+            parts.push(match &f.decl {
+                Decl::Spec(t) => format!("{}: \"{}\"", f.name, t.replace('\t', " ")),
+                Decl::EnumSpec(vs) => format!("{}: [{}]", f.name, vs.iter().map(|v| format!("\"{v}\"")).collect::<Vec<_>>().join(", ")),
+                Decl::Direct(_) => unreachable!(),
+            });
+        }
+        r.shuffle(&mut parts);
+        let define_text = format!("DEFINE {et} FIELDS {{ {} }}", parts.join(", "));
+        let mut model_ops: Vec<String> = vec![];
+        let mut impl_ans: Vec<String> = vec![];
+        let mut payload_values: Vec<Value> = vec![];
+        let mut fails: Vec<(String, String)> = vec![]; // (class, detail)
+        let mut checks = 0u64;
+        let def_tokens = {
+            let mut t = vec![format!("{} p{}", hexs("k"), hexs("int"))];
+            for f in &schema {
+                let d = match &f.decl {
+                    Decl::Spec(t) => Decl::Spec(t.replace('\t', " ")),
+                    d => d.clone(),
+                };
+                t.push(format!("{} {}", hexs(&f.name), decl_tokens(&d)));
+            }
+            t
+        };
+        let t0 = std::time::Instant::now();
+        let Some(rep) = sess.cmd(&define_text) else { panic!("session child died on {define_text}") };
+        s.tally_n("ms:define", t0.elapsed().as_millis() as u64);
+        checks += 1;
+        if rep.status_class() == "ok" {
+            model_ops.push(format!("D {} {} {}", hexs(&et), def_tokens.len(), def_tokens.join(" ")));
+            impl_ans.push("ok".into());
+        } else {
+            fails.push(("-".into(), format!("well-formed DEFINE answered {}: {define_text} :: {}", rep.status_class(), rep.message)));
+            if rep.parse == "ok" {
+                model_ops.push(format!("D {} {} {}", hexs(&et), def_tokens.len(), def_tokens.join(" ")));
+                impl_ans.push(format!("err {}", rep.status_class()));
+            }
+        }
+        // ---- STOREs
+        let n = 3 + r.below(4);
+        let redefine_at = if r.chance(1, 2) { Some(r.below(n)) } else { None };
+        let mut stores: Vec<SessStore> = vec![];
+        let mut answers: Vec<bool> = vec![];
+        for j in 0..n {
+            if redefine_at == Some(j) {
+                // a DEFINE that must be answered with an error and change nothing
+                let text = match r.below(3) {
+                    0 => format!("DEFINE {et} FIELDS {{ k: \"string\" }}"),
+                    1 => format!("DEFINE {et} FIELDS {{ k: \"int\", zz: \"int\" }}"),
+                    _ => format!("DEFINE {et} AS 2 FIELDS {{ other: \"bool\" }}"),
+                };
+                let Some(rep) = sess.cmd(&text) else { panic!("session child died on {text}") };
+                checks += 1;
+                s.tally("op:redefine");
+                if rep.parse == "ok" {
+                    let toks: Vec<String> = match parse_command(&text) {
+                        Ok(Command::Define { schema, .. }) => schema
+                            .fields
+                            .iter()
+                            .map(|(k, v)| {
+                                format!("{} {}", hexs(k), match v {
+                                    FieldSpec::Primitive(t) => format!("p{}", hexs(t)),
+                                    FieldSpec::Enum(vs) => decl_tokens(&Decl::EnumSpec(vs.clone())),
+                                })
+                            })
+                            .collect(),
+                        _ => vec![],
+                    };
+                    model_ops.push(format!("D {} {} {}", hexs(&et), toks.len(), toks.join(" ")));
+                    impl_ans.push(if rep.status_class() == "ok" {
+                        "ok".into()
+                    } else if rep.message.contains("already defined") {
+                        "err already-defined".into()
+                    } else {
+                        format!("err other {}", hexs(&rep.message))
+                    });
+                }
+                if rep.status_class() == "ok" {
+                    fails.push(("-".into(), format!("re-DEFINE of an existing type was accepted: {text}")));
+                }
+            }
+            let mut case = gen_payload(&mut r, &schema);
+            let k = j as i64 + 1;
+            if let Some(o) = case.payload.as_object_mut() {
+                o.insert("k".into(), json!(k));
+            }
+            let mut labels = case.labels.clone();
+            let mut st = SessStore { text: String::new(), k, expected: case.conforms, labels: vec![], blank_ctx: false, brace: false, plus_exp: false, huge_time: false, to_defined: true };
+            // text-level specials, only on otherwise valid cases so the class is unambiguous
+            let mut payload_text = serde_json::to_string(&case.payload).unwrap();
+            if case.conforms && r.chance(1, 12) {
+                if let Some(f) = schema.iter().find(|f| matches!(f.gt, GT::F64)) {
+                    let ph = serde_json::to_string(case.payload.get(&f.name).unwrap_or(&Value::Null)).unwrap();
+                    let lit = *r.pick(&["1e+5", "2.5E+3", "-7e+0"]);
+                    payload_text = payload_text.replacen(&format!("\"{}\":{}", f.name, ph), &format!("\"{}\":{}", f.name, lit), 1);
+                    if payload_text.contains(lit) {
+                        st.plus_exp = true;
+                        labels.push("plus-exponent");
+                    }
+                } else if let Some(f) = schema.iter().find(|f| matches!(f.gt, GT::Ts | GT::Date)) {
+                    let ph = serde_json::to_string(case.payload.get(&f.name).unwrap_or(&Value::Null)).unwrap();
+                    let lit = *r.pick(&["18446744073709551616", "10000000000000000000000000", "-9223372036854775809000"]);
+                    payload_text = payload_text.replacen(&format!("\"{}\":{}", f.name, ph), &format!("\"{}\":{}", f.name, lit), 1);
+                    if payload_text.contains(lit) {
+                        st.huge_time = true;
+                        st.expected = false; // an integer time of more than 19 digits is out of range
+                        labels.push("time-int-above-u64");
+                    }
+                }
+            }
+            if case.conforms && has_brace(&case.payload) {
+                st.brace = true;
+                labels.push("brace-in-string");
+            }
+            let (mut target, mut ctx) = (et.clone(), r.pick(SESS_CTX).to_string());
+            match r.below(16) {
+                0 => {
+                    ctx = String::new();
+                    st.expected = false;
+                    labels.push("empty-context");
+                }
+                1 => {
+                    ctx = r.pick(SESS_BLANK).to_string();
+                    st.blank_ctx = st.expected;
+                    labels.push("blank-context");
+                }
+                2 => {
+                    target = format!("u{}_{}", a.seed % 1000, i);
+                    st.to_defined = false;
+                    st.expected = false;
+                    labels.push("undefined-type");
+                }
+                _ => {}
+            }
+            let sp = if r.chance(1, 5) { "  " } else { " " };
+            st.text = format!("STORE {target}{sp}FOR {}{sp}PAYLOAD {payload_text}", ctx_text(&ctx));
+            st.labels = labels;
+            let t0 = std::time::Instant::now();
+            let Some(rep) = sess.cmd(&st.text) else { panic!("session child died on {}", st.text) };
+            s.tally_n("ms:store", t0.elapsed().as_millis() as u64);
+            checks += 1;
+            let accepted = rep.status_class() == "ok";
+            answers.push(accepted);
+            // what the model is told: the command as the real parser sees it
+            if rep.parse == "ok" {
+                match parse_command(&st.text) {
+                    Ok(Command::Store { event_type, context_id, payload }) => {
+                        model_ops.push(format!("S {} {} {}", hexs(&event_type), hexs(&context_id), json_line(&payload)));
+                        payload_values.push(payload);
+                        impl_ans.push(if accepted { "ok".into() } else if rep.status_class() == "bad-request" { sess_class_of_error(&rep.message) } else { format!("err {}", rep.status_class()) });
+                    }
+                    _ => impl_ans.push("parent-parse-differs".into()),
+                }
+            }
+            s.tally(&format!("store-answer:{}", rep.status_class()));
+            for l in &st.labels {
+                s.tally(&format!("mut:{l}"));
+            }
+            if st.labels.is_empty() {
+                s.tally("mut:none");
+            }
+            // ---- oracle on the answer
+            if accepted != st.expected {
+                let others_ok = |skip: &str| st.labels.iter().all(|l| *l == skip || *l == "drop-optional");
+                let class = if !accepted && st.blank_ctx && rep.message == "context_id cannot be empty" && others_ok("blank-context") {
+                    "blank-context"
+                } else if !accepted && st.brace && rep.parse == "error" && others_ok("brace-in-string") {
+                    "brace-in-string"
+                } else if !accepted && st.plus_exp && rep.parse == "error" && others_ok("plus-exponent") {
+                    "plus-exponent"
+                } else if accepted && st.huge_time && others_ok("time-int-above-u64") {
+                    "time-int-above-u64"
+                } else {
+                    "-"
+                };
+                fails.push((class.into(), format!("expected_accept={} answer={} msg={:?} labels={:?} :: {} :: {}", st.expected, rep.status_class(), rep.message, st.labels, define_text, st.text)));
+            }
+            stores.push(st);
+        }
+        // ---- QUERY: exactly the accepted ids are readable (poll: STORE is acknowledged on enqueue)
+        let want: Vec<i64> = stores.iter().zip(&answers).filter(|(st, ok)| **ok && st.to_defined).map(|(st, _)| st.k).collect();
+        let qtext = format!("QUERY {et} RETURN [k]");
+        let mut got: Vec<i64> = vec![];
+        let t0 = std::time::Instant::now();
+        for attempt in 0..80 {
+            let Some(rep) = sess.cmd(&qtext) else { panic!("session child died on {qtext}") };
+            got = rep.col("k").iter().filter_map(|v| v.as_i64()).collect();
+            got.sort();
+            if got.len() >= want.len() || rep.status_class() != "ok" {
+                break;
+            }
+            if attempt > 0 {
+                s.tally("query:polled-again");
+            }
+            std::thread::sleep(std::time::Duration::from_millis(25));
+        }
+        s.tally_n("ms:query", t0.elapsed().as_millis() as u64);
+        checks += 1;
+        model_ops.push(format!("Q {} {}", hexs(&et), hexs("k")));
+        impl_ans.push(format!("rows {}", got.iter().map(|k| k.to_string()).collect::<Vec<_>>().join(",")));
+        let mut want_sorted = want.clone();
+        want_sorted.sort();
+        if got != want_sorted {
+            fails.push(("-".into(), format!("QUERY returned ids {got:?}, accepted ids {want_sorted:?} :: {define_text} :: {:?}", stores.iter().map(|x| x.text.clone()).collect::<Vec<_>>())));
+        }
+        // ---- emit
+        let refs: Vec<&Value> = payload_values.iter().collect();
+        let op = format!("session {} {} {}", cal_tokens(&refs), model_ops.len(), model_ops.join(" "));
+        s.case(&op, &impl_ans.join("; "), answers.iter().any(|x| *x));
+        s.tally_n("commands", checks);
+        if fails.is_empty() {
+            s.oracle_ok();
+        } else {
+            for (class, detail) in fails {
+                s.oracle_fail(i, &class, &detail);
+            }
+        }
+    }
+    sess.shutdown();
+    s.finish();
 }
